@@ -14,7 +14,7 @@ checks = {
          "Generated emissions and per-channel delays; oracle independent of the wire format."),
  "C05": ("model-based PBT: MUST/MAY/MUST-NOT recipient model vs observed deliveries, sequence-number order", "4",
          "Generated emissions, sessions and delivery orders against a recipient model."),
- "C07": ("stateful PBT: channel whitelist for unauthorized clients + C03/C01 oracles after authorization", "4",
+ "C07": ("stateful PBT: channel whitelist for unauthorized clients + C03/C01 oracles after authorization + recipient model (no dependent event of the unauthorized period is delivered later)", "4",
          "Generated histories under all three authorization methods."),
  "C08": ("stateful PBT with wire-level secret search (raw substring), visibility-query model, C03/C01 effect oracles", "4",
          "Generated visibility/lifecycle histories under both list policies."),
@@ -22,7 +22,7 @@ checks = {
          "Generated injection points with whatever is in flight then."),
  "C16": ("stateful PBT: adoption invariant (mapping == pre-spawned entity, entity-count bookkeeping) after every client frame", "4",
          "Generated timings of mapping vs spawn with surrounding traffic."),
- "C06": ("exhaustive byte strings <=2 (<=3 thorough) per client channel + structure-aware mutation PBT of genuine messages (incl. an event with length-prefixed collections and a two-target trigger) + libFuzzer campaign (thorough); oracle: no panic/abort/hang (per-case watchdog), allocation bound, honest client still served", "4",
+ "C06": ("exhaustive byte strings <=2 (<=3 thorough) per client channel + structure-aware mutation PBT of genuine messages (incl. an event with length-prefixed collections and a two-target trigger) + libFuzzer campaign (thorough); oracle: no panic/abort/hang (per-case watchdog), allocation bound, honest client still served, metamorphic: a strict prefix of a genuine message never reaches server logic", "4",
          "Enumerates a finite input space completely and searches beyond it with generated mutations; crash, allocation and serving oracles inside the target."),
  "C10": ("PBT with operational size measurement (shadow clients, no decoding) + generated delivery subsets over graphs of two relationship types (incl. mutual relations, server restarts); oracle: payload conservation, size clauses, group all-or-nothing", "4",
          "Generated sizes around the splitting boundaries, evolving relationship graphs and delivery subsets."),
